@@ -152,7 +152,7 @@ class P:
 class Sem:
     """Evaluation of expressions over an environment name -> z3 bv, per IEEE 1364-2005 5.4/5.5."""
     local_blocking = False      # set while a clocked block is run on a private copy of the environment
-    def __init__(self, mod): self.m = mod
+    def __init__(self, mod): self.m = mod; self.xvars = []
     def selfw(self, e):
         k = e[0]
         if k == "const": return e[2], e[3]
@@ -192,7 +192,15 @@ class Sem:
         if k == "const": return self.leaf(z3.BitVecVal(e[1], e[2]), W, S, e[3])
         if k == "id": return self.leaf(env[e[1]], W, S, self.m["nets"][e[1]]["signed"])
         if k == "part":
-            base = self.evself(e[1], env); return self.leaf(z3.Extract(e[2], e[3], base), W, S, False)
+            base = self.evself(e[1], env)
+            if e[2] >= base.size():
+                # IEEE 1364-2005 5.2.1: bits selected outside the declared range read x -> arbitrary (fresh) bits
+                lo_ok = e[3] < base.size()
+                xw = e[2] - max(e[3], base.size()) + 1
+                self.xvars.append(z3.BitVec("v$x%d" % len(self.xvars), xw))
+                v = z3.Concat(self.xvars[-1], z3.Extract(base.size() - 1, e[3], base)) if lo_ok else self.xvars[-1]
+                return self.leaf(v, W, S, False)
+            return self.leaf(z3.Extract(e[2], e[3], base), W, S, False)
         if k == "index":
             if e[1][0] == "id" and e[1][1] in self.m["mems"]:
                 mem = e[1][1]; d = self.m["mems"][mem]["depth"]; a = self.evself(e[2], env)
@@ -201,6 +209,9 @@ class Sem:
                     r = z3.If(a == z3.BitVecVal(i, a.size()), env[(mem, i)], r) if i < (1 << a.size()) else r
                 return self.leaf(r, W, S, False)
             base = self.evself(e[1], env); assert e[2][0] == "const"
+            if e[2][1] >= base.size():
+                self.xvars.append(z3.BitVec("v$x%d" % len(self.xvars), 1))
+                return self.leaf(self.xvars[-1], W, S, False)
             return self.leaf(z3.Extract(e[2][1], e[2][1], base), W, S, False)
         if k == "cat":
             ps = [self.evself(p, env) for p in e[1]]
@@ -273,6 +284,9 @@ class Sem:
     @staticmethod
     def merge_bits(old, v, sel):
         hi, lo = sel; parts = []
+        if lo >= old.size(): return old                       # a write entirely outside the declared range has no effect
+        if hi >= old.size():                                  # the part outside the range is ignored
+            v = z3.Extract(old.size() - 1 - lo, 0, v); hi = old.size() - 1
         if hi < old.size() - 1: parts.append(z3.Extract(old.size() - 1, hi + 1, old))
         parts.append(v)
         if lo > 0: parts.append(z3.Extract(lo - 1, 0, old))
